@@ -430,6 +430,11 @@ fn group_layer(ctx: &mut Ctx) {
         let inp = |a: &Point, b: &Point| json!({"P": pt_json(a), "Q": pt_json(b)});
         // P + Q generic
         same(ctx, "point_add", "P_ne_Q", guard(|| lp.point_add(&lq)), &r2::add(&Some(pa.clone()), &Some(qa.clone())), inp(&lp, &lq));
+        // two distinct points stored with the same Z (a co-Z shortcut must still scale nothing away)
+        {
+            let lqz = r2::to_lib_point(&qa, &l1);
+            same(ctx, "point_add", "P_ne_Q_same_stored_Z", guard(|| lp.point_add(&lqz)), &r2::add(&Some(pa.clone()), &Some(qa.clone())), inp(&lp, &lqz));
+        }
         // P + P, same representation and different Z
         same(ctx, "point_add", "P_eq_Q_same_repr", guard(|| lp.point_add(&lp)), &r2::dbl(&Some(pa.clone())), inp(&lp, &lp));
         let mut l3 = lambda(&mut p, i + 1);
@@ -446,6 +451,11 @@ fn group_layer(ctx: &mut Ctx) {
         let ln1 = r2::to_lib_point(&na, &l1);
         let ln2 = r2::to_lib_point(&na, &l3);
         same(ctx, "point_add", "P_eq_negQ_same_Z", guard(|| lp.point_add(&ln1)), &None, inp(&lp, &ln1));
+        // -P stored with the SAME X and Y words as P and Z negated: (X, Y, -Z) = (x(-l)^2, (-y)(-l)^3, -l)
+        let lnz = r2::to_lib_point(&na, &(&c.p - &l1));
+        same(ctx, "point_add", "P_plus_negP_same_stored_XY", guard(|| lp.point_add(&lnz)), &None, inp(&lp, &lnz));
+        same(ctx, "point_add", "Q_plus_negP_same_stored_XY_right_after_Q_plus_P", guard(|| { let _ = lq.point_add(&lp); lq.point_add(&lnz) }), &r2::add(&Some(qa.clone()), &Some(na.clone())), inp(&lq, &lnz));
+        same(ctx, "point_dbl", "negP_same_stored_XY_right_after_P", guard(|| { let _ = lp.point_dbl(); lnz.point_dbl() }), &r2::dbl(&Some(na.clone())), inp(&lnz, &lnz));
         same(ctx, "point_add", "P_eq_negQ_diff_Z", guard(|| lp.point_add(&ln2)), &None, inp(&lp, &ln2));
         // infinity operands: canonical (1,1,0) and arbitrary (X,Y,0)
         let inf1 = Point::zero();
@@ -522,6 +532,7 @@ fn group_layer(ctx: &mut Ctx) {
             // immediately afterwards on related points: -P (same x), P in another representation, then P again
             same(ctx, "scalar_mul", "consecutive_negated_base", guard(|| ln1.scalar_mul(&lk)), &r2::neg(&want), json!({"P": pt_json(&ln1), "k": h(&lk)}));
             same(ctx, "scalar_mul", "consecutive_same_point_other_Z", guard(|| lp2.scalar_mul(&lk)), &want, json!({"P": pt_json(&lp2), "k": h(&lk)}));
+            same(ctx, "scalar_mul", "consecutive_negated_base_same_stored_XY", guard(|| { let _ = lp.scalar_mul(&lk); lnz.scalar_mul(&lk) }), &r2::neg(&want), json!({"P": pt_json(&lnz), "k": h(&lk)}));
             same(ctx, "scalar_mul", "consecutive_repeat", guard(|| lp.scalar_mul(&lk)), &want, json!({"P": pt_json(&lp), "k": h(&lk)}));
             same(ctx, "scalar_mul", "consecutive_other_point", guard(|| lq.scalar_mul(&lk)), &r2::mul(&k, &Some(qa.clone())), json!({"P": pt_json(&lq), "k": h(&lk)}));
         }
